@@ -34,13 +34,12 @@ Definition spec_w k ref x mapping (Z : list (list bool)) : list Qc :=
   map (fun z => karg x z (spec_masked k ref x mapping z)) Z.
 End LimeSpec.
 
-(* kernels in the property's words (sqrt as a function; its defining equation is a hypothesis of the theorems) *)
+(* kernels in the property's words *)
 Definition sum_sq_diff (x m : list Qc) : Qc := qsum (map2 (fun a b => (a - b) * (a - b)) x m).
 Definition spec_eucl_arg (width : Qc) (x m : list Qc) : Qc := - (sum_sq_diff x m) / (width * width).
 (* nx, nm: the Euclidean norms of x and m *)
 Definition spec_cos_arg (width nx nm : Qc) (x m : list Qc) : Qc :=
   - ((1 - dot x m / (nx * nm)) * (1 - dot x m / (nx * nm))) / (width * width).
-Definition sqrt_ok (sqrtf : Qc -> Qc) : Prop := forall v, 0 <= v -> sqrtf v * sqrtf v = v.
 
 (* ---------------------------------------------------------------- additive scores and Shapley values *)
 (* score(x, t) = b(t) + <wv(t), x> on inputs of n features *)
@@ -58,8 +57,11 @@ Definition shapley_expl (k : kind) (ref x wts : list Qc) (mapping : list nat) : 
   map (delta k ref x wts mapping) mapping.
 
 (* linear part of the F-quad family under the predictions operator: sum_c t_c W_c *)
-Definition lin_weights (n : nat) (ks : list qclass) (t : list Qc) : list Qc :=
-  vsum n (map2 (fun k tc => vscale tc (qW k)) ks t).
+Fixpoint lin_weights (n : nat) (ks : list qclass) (t : list Qc) : list Qc :=
+  match ks, t with
+  | k :: ks', tc :: t' => vadd (vscale tc (qW k)) (lin_weights n ks' t')
+  | _, _ => vzero n
+  end.
 Definition lin_bias (ks : list qclass) (t : list Qc) : Qc := dot (map qb ks) t.
 Definition class_additive (n : nat) (k : qclass) : Prop :=
   length (qW k) = n /\ qX k = [] /\ forall v, In v (qV k) -> v = 0.
@@ -84,3 +86,14 @@ Definition lime_ok (k : kind) (ref x : list Qc) (mapping : list nat) : Prop :=
   kind_ok k /\ length ref = kind_chan k /\ length x = kind_size k /\ length mapping = kind_npos k.
 Definition bs_ok (bs : option nat) (nb_samples : nat) : Prop :=
   match bs with Some b => (1 <= b)%nat | None => (1 <= nb_samples)%nat end.
+
+(* the whole Lime computation for one input, in the property's words *)
+Definition spec_trace (score : list Qc -> list Qc -> Qc) (karg : list Qc -> list bool -> list Qc -> Qc)
+    (fit : list (list bool) -> list Qc -> list Qc -> list Qc)
+    (k : kind) (ref x t : list Qc) (mapping : list nat) (Z : list (list bool)) : trace :=
+  let y := spec_y score k ref x t mapping Z in
+  let w := spec_w karg k ref x mapping Z in
+  {| tr_queries := spec_queries k ref x mapping Z; tr_y := y; tr_w := w; tr_coef := fit Z y w;
+     tr_expl := map (fun j => nthq (fit Z y w) j) mapping |}.
+
+Definition is_sqrt_at (sqrtf : Qc -> Qc) (v : Qc) : Prop := sqrtf v * sqrtf v = v.
